@@ -223,6 +223,12 @@ class patched_open_process:
             p = outer.factory(command, kwargs)
             if isinstance(p, BaseException):
                 raise p
+            d = getattr(p, "spawn_delay", 0)
+            if d:
+                await asyncio.sleep(d)  # a slow spawn: cancellation may arrive while the process is being started
+            cb = getattr(p, "on_spawned", None)
+            if cb is not None:
+                cb()  # the instant the spawn completes (before the library regains control)
             p.argv = list(command) if not isinstance(command, (str, bytes)) else command
             p.env = kwargs.get("env")
             p.kwargs = kwargs
